@@ -558,6 +558,10 @@ class NDNApp:
             if not valid:
                 self.logger.warning('Drop unvalidated Interest: %s', name)
                 return
+            if self._prefix_tree.get(trie_step.key) is not node:
+                # The handler was removed while the Interest was being checked
+                self.logger.warning('Handler removed: %s', name)
+                return
             if node.extra_param:
                 kwargs = {}
                 if node.extra_param.get('raw_packet', False):
